@@ -24,7 +24,7 @@ RULE = ("arm parity: documented setting in {POLL_TIMER, SERVICE_URL, SERVICE_SEC
         "IN_APP_INCLUDE, IN_APP_EXCLUDE, APP_ROOT, LOGGING_CONF} x generated value x whole-system scenario (start through "
         "deep.start, registered tracepoint hit from nested calls, 3.5 poll intervals, shutdown) run with the value "
         "in code and as DEEP_<KEY> text; arm table (seed index 0 of a batch): 10 keys x 7 code forms (value, callable, absent, 0, '', [], False) x 2 environment "
-        "states in fresh interpreters (ENUMERATED) and 9 paths x 12 prefix sets for the app-frame rule (ENUMERATED); "
+        "states in fresh interpreters (ENUMERATED) and 13 paths (incl. prefixes recurring later in the path) x 24 prefix sets for the app-frame rule (ENUMERATED); "
         "non-trivial = a parity pair whose scenario delivered at least one snapshot and three polls, or a table row; "
         "distinct = distinct (key, value) pairs / table rows")
 COMPONENTS = {"real": ["deep.start(), ConfigService, deep.config (re-imported per environment), whole agent"],
@@ -288,8 +288,19 @@ def _table(s, ch):
     seams.install()
     from deep.config.config_service import ConfigService
     from deep.config.tracepoint_config import TracepointConfigService
+    from deep.processor.frame_collector import FrameCollector
+
+    class _Src:
+        """The collector's view of the configuration (the short path is computed by the collector)."""
+
+        def __init__(self, cfg_):
+            self.cfg = cfg_
+
+        def is_app_frame(self, filename):
+            return self.cfg.is_app_frame(filename)
     paths = ("/app/src/main.py", "/app/src/lib/util.py", "/app/vendor/x.py", "/appendix/y.py", "/usr/lib/python3/os.py",
-             "/app", "", "relative/file.py", "/app/src/lib/../evil.py")
+             "/app", "", "relative/file.py", "/app/src/lib/../evil.py", "/app/src/app/main.py", "/app/vendor/app/vendor/z.py",
+             "/usr/lib/python3/usr/lib/six.py", "/appendix/app/appendix/q.py")
     sets = []
     for root in ("/app", "/app/", "", "/nowhere"):
         for inc, exc in (([], []), (["/usr/lib"], []), ([], ["/app/vendor"]), (["/app/vendor/x"], ["/app/vendor"]),
@@ -302,7 +313,9 @@ def _table(s, ch):
             rows += 1
             try:
                 app, match = cfg.is_app_frame(path)
-                short = path[len(match):] if match is not None else path
+                short, app2 = FrameCollector(_Src(cfg), None).parse_short_name(path)
+                if bool(app2) != bool(app):
+                    viol.append(V("app-frame-flag", "collector and configuration disagree for %r" % path))
             except BaseException as e:  # noqa
                 viol.append(V("app-frame-rule-raised", "%r %r: %r" % (path, (root, inc, exc), e)))
                 continue
